@@ -402,11 +402,13 @@ func (e *EvalCtx) quant(n EQuant) Val {
 	body := se.asBool(se.eval(n.Body))
 	pat := ""
 	if len(n.Trig) > 0 {
-		ts := []string{}
-		for _, tr := range n.Trig {
-			ts = append(ts, se.eval(tr).T)
+		for _, grp := range n.Trig {
+			ts := []string{}
+			for _, tr := range grp {
+				ts = append(ts, se.eval(tr).T)
+			}
+			pat += " :pattern (" + strings.Join(ts, " ") + ")"
 		}
-		pat = " :pattern (" + strings.Join(ts, " ") + ")"
 		body = "(! " + body + pat + ")"
 	}
 	q := "exists"
@@ -450,6 +452,8 @@ func (e *EvalCtx) call(n ECall) Val {
 			e.p.assume("(>= " + e.p.now + " 0)")
 		}
 		return Val{K: KInt, T: e.p.now, Typ: e.c.eng.timeType}
+	case "entry_now":
+		return Val{K: KInt, T: e.c.entryNow, Typ: e.c.eng.timeType}
 	case "calls":
 		id, ok := n.Args[0].(EIdent)
 		if !ok {
@@ -503,6 +507,21 @@ func (e *EvalCtx) call(n ECall) Val {
 			e.c.declare(al, "(Array Int Bool)")
 		}
 		return boolVal(fmt.Sprintf("(and (not (= %s 0)) (not (select %s %s)))", a.T, al, a.T))
+	case "backing": // backing(x, []T): the content of backing store x as an array value (single-leaf element types)
+		a := arg(0)
+		t := e.c.eng.parseType(e.pkg, exprString(n.Args[1]))
+		et := elemTypeOf(t)
+		if et == nil || len(leavesOf(et)) != 1 {
+			e.fail("backing() needs a slice type with scalar elements")
+		}
+		l := leavesOf(et)[0]
+		arr := e.c.heapGet(e.heap, elemKey(et)+l.Path, l.Sort)
+		return Val{K: KArr, T: fmt.Sprintf("(select %s %s)", arr, a.T), Len: "Int", Cap: l.Sort}
+	case "preexisting": // allocated before the function under verification was entered
+		a := arg(0)
+		al := sym("H0 $alloc")
+		e.c.declare(al, "(Array Int Bool)")
+		return boolVal(fmt.Sprintf("(select %s %s)", al, a.T))
 	case "allocated":
 		a := arg(0)
 		al := e.c.heapGetAllocView(e.heap)
@@ -776,7 +795,19 @@ func (c *FnCtx) applyContract(p *Path, fc *FuncContract, fn *ssa.Function, args 
 		}
 	}
 	mk(p, fc.Ensures)
-	// results that are pointers to pre-existing or fresh objects: allocated in the post-state
+	for _, r := range rs {
+		var ref string
+		switch r.K {
+		case KPtr, KSlice, KMap:
+			ref = r.T
+		case KIface:
+			ref = r.IVal
+		}
+		if ref != "" {
+			al := c.heapGetAlloc(p)
+			p.heap.m["$alloc"] = fmt.Sprintf("(store %s %s true)", al, ref)
+		}
+	}
 	outs = append(outs, outcome{p: p, ret: rs})
 	return outs
 }
@@ -974,6 +1005,12 @@ func (c *FnCtx) monitorAcquire(p *Path, key string, m Val) {
 			p.assume(t)
 		}
 	}
+	if len(mon.Guar) > 0 {
+		if p.acq == nil {
+			p.acq = map[string]HeapView{}
+		}
+		p.acq[key+"@"+m.T] = p.heap.clone()
+	}
 }
 
 func (c *FnCtx) monitorRelease(p *Path, key string, m Val, mode int) {
@@ -987,6 +1024,13 @@ func (c *FnCtx) monitorRelease(p *Path, key string, m Val, mode int) {
 	for i, cl := range mon.Inv {
 		t, _ := c.evalClause(ec, cl, "monitor "+key)
 		c.oblige(p, "mon_release", shortKey(key)+"."+clauseLabel(cl, i, "inv"), t, cl.Src, cl.Props)
+	}
+	if snap, ok := p.acq[key+"@"+m.T]; ok {
+		gc := &EvalCtx{c: c, p: p, env: map[string]Val{mon.Self: self}, heap: &p.heap, old: &snap, pkg: c.eng.pkgByDir(mon.Pkg)}
+		for i, cl := range mon.Guar {
+			t, _ := c.evalClause(gc, cl, "guarantee "+key)
+			c.oblige(p, "guarantee", shortKey(key)+"."+clauseLabel(cl, i, "guar"), t, cl.Src, cl.Props)
+		}
 	}
 }
 
